@@ -1445,7 +1445,12 @@ class SpaceManager(SharedSpaceOperations):
 
         for space, c in renamed:
             space.clear_subs_rootitems()
-            c.on_rename(name)
+            if c is not cells and name in space.cells:
+                # The sub has a cells of the new name of its own, which now
+                # overrides the renamed one: only the derived copy goes away
+                space.on_del_cells(old_name)
+            else:
+                c.on_rename(name)
 
         # Subs that took old_name from another base derive the new name
         self.update_subs(cells.parent)
